@@ -375,7 +375,7 @@ def check_case(c: Contract, fn, args, ns=None, ignore_known=False):
     env.update(args)
     env['old'] = types.SimpleNamespace(**pre)
     env['result'] = res
-    for cn, text in c.ensures.items():
+    for cn, text in list(c.ensures.items()) + list(c.runtime_ensures.items()):
         try:
             ok = ceval(text, env)
         except Exception as e:
